@@ -47,6 +47,9 @@ func rulesC11(c *Ctx) {
 	ruleEntryImmutability(c)
 	ruleElectionWriters(c)
 	ruleElectionAtomic(c)
+	// Flush holds the locks of all listed instances at once: it must take them in the order of the list it is
+	// given (callers pass one name or the sorted list), never in map-iteration order (shared with C08)
+	ruleFlushScope(c)
 }
 
 // chanUse summarises how a channel-typed variable is used in a function and its callees.
